@@ -651,7 +651,10 @@ def judge_and_compare(c, runs, shortcut, stream):
                   {'top': not rr.max_deleted, 'fresh': not rr.reused}, {'top': m['top'], 'fresh': m['fresh']})
     # ---- property on the REAL log (Lean predicates)
     if not j['snapshotsWF']:
-      raise core.InfraError('recorded snapshot with duplicate trial identity: ' + json.dumps(case)[:400])
+      # the study's own trial table (datastore.list_trials) holds two trials with one identity: whatever is built on
+      # it (the policy supporter's GetTrials, hence every update) cannot be exact
+      fail('study-trial-table-duplicate-identity', 'list_trials of the study returns two trials with the same id: the table the algorithm is fed from is not the study\'s', case)
+      continue
     for e in rr.errors:
       fail('algorithm-invocation-failed', 'a suggest request failed inside the hosted policy, the algorithm was not updated: %s' % e['error'], case)
     for i, e in enumerate(lg):
